@@ -11,6 +11,7 @@ import TonVerif.Proofs.OrdCell
 import TonVerif.Proofs.SrcArith
 import TonVerif.Generated.Capacity
 import TonVerif.Proofs.SrcTyped
+import TonVerif.Proofs.SrcSnake
 
 namespace TonVerif.Properties.C07
 open TonVerif TonVerif.Model TonVerif.Spec.Tlb TonVerif.Proofs.Builder TonVerif.Proofs.Slice
@@ -315,5 +316,37 @@ example : let b : Builder Nat := ⟨List.replicate 1020 false, [1, 2, 3, 4]⟩
   refine ⟨by decide +kernel, by decide +kernel, by decide +kernel, by decide +kernel, by decide, by decide⟩
 
 end SrcMethods
+
+/-! ## Source-regenerated snake store (`Generated/SnakeOps.lean`, re-translated from builder.py on every run) -/
+section SrcSnake
+open TonVerif.Proofs.SrcBuilder TonVerif.Proofs.SrcSnake TonVerif.Generated.SnakeOps
+
+/-- capacity of the regenerated snake store, for EVERY byte string, EVERY cell constructor `mk` (= `Cell(..)` as `end_cell` calls
+it) and EVERY within-capacity builder: (1, 2) `store_snake_bytes` / `store_snake_string` leave the builder they are called on
+within 1023 bits / 4 references whether they return or raise; (3) they never ask for a cell of more than 1023 bits or more than
+4 references: replacing the constructor by `guardCap mk` - which REFUSES such a cell - changes neither the outcome nor the state,
+so every tail cell of the chain (127 bytes = 1016 bits, at most one reference) is within capacity. -/
+theorem c07_src_snake_capacity (mk : Bits → List R → Option R) (bs : Bytes) (p : Bool) (b : Builder R)
+    (hb : Proofs.Builder.Inv b) :
+    Proofs.Builder.Inv (store_snake_bytes mk bs b).1 ∧
+    Proofs.Builder.Inv (store_snake_string mk bs p b).1 ∧
+    store_snake_bytes (guardCap mk) bs b = store_snake_bytes mk bs b := by
+  refine ⟨?_, ?_, src_snake_guard mk bs b⟩
+  · rw [src_store_snake_bytes_eq, ofFlag_fst]
+    exact safe_storeSnakeFuel mk _ bs b hb
+  · rw [src_store_snake_string_eq, ofFlag_fst]
+    exact safe_storeSnakeFuel mk _ _ b hb
+
+/-- `guardCap` does refuse: a 1024-bit cell and a 5-reference cell are not built (so (3) above is not vacuous), while a
+within-capacity request reaches `mk`; a builder at 1020 bits / 3 refs meets the hypothesis and the regenerated store of 200 bytes
+into it leaves 1020 bits / 4 refs. -/
+example : guardCap (fun _ (_ : List Nat) => some 0) (List.replicate 1024 false) [] = none ∧
+    guardCap (fun _ (_ : List Nat) => some 0) [] [1, 2, 3, 4, 5] = none ∧
+    guardCap (fun _ (_ : List Nat) => some 0) (List.replicate 1023 false) [1, 2, 3, 4] = some 0 ∧
+    Proofs.Builder.Inv (⟨List.replicate 1020 false, [1, 2, 3]⟩ : Builder Nat) ∧
+    (store_snake_bytes (fun _ (_ : List Nat) => some 0) (List.replicate 200 7) ⟨List.replicate 1020 false, [1, 2, 3]⟩).1.refs.length = 4 := by
+  refine ⟨by decide +kernel, by decide +kernel, by decide +kernel, ⟨by decide +kernel, by decide +kernel⟩, by decide +kernel⟩
+
+end SrcSnake
 
 end TonVerif.Properties.C07
